@@ -16,9 +16,10 @@ import (
 )
 
 type closureUniverse struct {
-	name string
-	kind string
-	keys [][]byte
+	name     string
+	kind     string
+	keys     [][]byte
+	thorough bool // explored in the thorough tier only (4 096 states)
 }
 
 func bs(ss ...string) [][]byte {
@@ -47,26 +48,34 @@ var closureUniverses = []closureUniverse{
 		"",                 // empty key
 		"0123456789ABCDEF", // proper prefix of stored keys
 		"Zq",
-	)},
+	), false},
 	{"merges-producing-9-10-11-byte-paths", "alpha:bytes", bs(
 		"abcdefghXmn1", "abcdefghXmn2", "abcdefghY", // merge gives 8+1+2 = 11
 		"ABCDEFGXmn1", "ABCDEFGXmn2", "ABCDEFGY", // 7+1+2 = 10
 		"zyxwvuXmn1", "zyxwvuXmn2", "zyxwvuY", // 6+1+2 = 9
-	)},
-	{"numeric-u16", "u16", u16keys(0x0000, 0x0001, 0x00ff, 0x0100, 0x7fff, 0x8000, 0x80ff, 0xff00, 0xffff)},
-	{"collation-case-accent", "coll:und:string", bs("a", "A", "á", "ab", "aB", "b", "", "ábc", "abc")},
+	), false},
+	{"numeric-u16", "u16", u16keys(0x0000, 0x0001, 0x00ff, 0x0100, 0x7fff, 0x8000, 0x80ff, 0xff00, 0xffff), false},
+	{"collation-case-accent", "coll:und:string", bs("a", "A", "á", "ab", "aB", "b", "", "ábc", "abc"), false},
 	{"node4-node16-boundary-bytes", "alpha:bytes", bs(
 		"stem\x01", "stem\x7f", "stem\x80", "stem\xfe", "stem\xff", "stem\x02x", "stem\x02y", "stem", "ste",
-	)},
+	), false},
 	{"float64-specials", "f64", [][]byte{
 		rawOf(0x7ff8000000000001), rawOf(0xfff0000000000000), rawOf(0x8000000000000000), rawOf(0), rawOf(0x3ff0000000000000),
 		rawOf(0xbff0000000000000), rawOf(0x7ff0000000000000), rawOf(1), rawOf(0x8000000000000001),
+	}, false},
+	{"int8-signs", "i8", [][]byte{rawOf(0x80), rawOf(0xff), rawOf(0), rawOf(1), rawOf(0x7f), rawOf(0xfe), rawOf(0x81), rawOf(2)}, false},
+	{name: "alpha-12-keys", kind: "alpha:string", thorough: true, keys: bs(
+		"", "a", "ab", "abcdefghijk1", "abcdefghijk2", "abcdefghijX", "abcdefghiY", "abcdefghijk", "b", "b\x01", "b\x80", "b\xff",
+	)},
+	{name: "uint32-12-keys", kind: "u32", thorough: true, keys: [][]byte{
+		rawOf(0), rawOf(1), rawOf(0x100), rawOf(0x101), rawOf(0x10000), rawOf(0x10001), rawOf(0x1000000), rawOf(0x7fffffff),
+		rawOf(0x80000000), rawOf(0x80000001), rawOf(0xffffff00), rawOf(0xffffffff),
 	}},
-	{"int8-signs", "i8", [][]byte{rawOf(0x80), rawOf(0xff), rawOf(0), rawOf(1), rawOf(0x7f), rawOf(0xfe), rawOf(0x81), rawOf(2)}},
+	{name: "collation-de-11-keys", kind: "coll:de:string", thorough: true, keys: bs("a", "ä", "ae", "Ä", "az", "b", "ß", "ss", "sz", "s", "")},
 	{"compound-u8-str", "cmp:u8,str", [][]byte{
 		append(rawOf(1), "ab"...), append(rawOf(1), "ac"...), append(rawOf(1), ""...), append(rawOf(2), "ab"...),
 		append(rawOf(0x80), "abcdefghijklmn1"...), append(rawOf(0x80), "abcdefghijklmn2"...), append(rawOf(0x80), "abcdefghijkX"...), append(rawOf(0xff), ""...),
-	}},
+	}, false},
 }
 
 func closureTrace(u closureUniverse, path []Op, msg string) *Trace {
@@ -117,6 +126,9 @@ func TestC11Closure(t *testing.T) {
 		return
 	}
 	for _, u := range closureUniverses {
+		if u.thorough && *flagTier != "thorough" {
+			continue
+		}
 		kind := MustKind(u.kind)
 		seen := map[string]bool{}
 		classless := map[string]string{} // key set -> classless digest
